@@ -240,7 +240,7 @@ theorem applyMask_isSome {β : Type} (xs : List β) (missing : Option (List Bool
   | none => exact ⟨xs, rfl⟩
   | some m =>
     unfold applyMask
-    simp only [hlen m rfl, if_true]
+    simp only [hlen m rfl, true_or, if_true]
     exact ⟨_, rfl⟩
 
 theorem mem_applyMask_iff {β : Type} (xs : List β) (missing : Option (List Bool)) (r : List β)
